@@ -333,10 +333,10 @@ Definition obytes (s : lst) (n : N) : list N :=
   span (N.to_nat n) (match osel s with OWin => win s | OE8 => e8 s end) (optr s) [].
 
 (* ---------- frame loop ---------- *)
-Fixpoint frame_loop (fuel : nat) (end_frame : N) (out_bytes : N) : lm N :=
-  match fuel with O => fail 99 | S f =>
+(* everything lzxd_decompress does for one frame before it hands bytes out: reset, DELTA chunk word, Intel header, frame size from the
+   output-length hint, the block loop, realignment, E8 translation / output pointers.  Returns the frame size. *)
+Definition frame_pre : lm N :=
     s <- get ;;
-    if end_frame <=? frame s then ret out_bytes else
     _ <- (if negb (reset_interval s =? 0) && (frame s mod reset_interval s =? 0) then modify reset_state else ret tt) ;;
     s0 <- get ;; _ <- (if is_delta s0 then _ <- ensure 3 16 ;; remove 16 else ret tt) ;;
     s1 <- get ;;
@@ -365,13 +365,20 @@ Fixpoint frame_loop (fuel : nat) (end_frame : N) (out_bytes : N) : lm N :=
             let d1 := e8_loop (N.to_nat frame_size) d0 0 (frame_size - 10) (s32 (offset s5)) (s32 (intel_filesize s5)) in
             put (s5 <| e8 := d1 |> <| osel := OE8 |> <| optr := 0 |> <| oend := frame_size |>)
           else put (s5 <| osel := OWin |> <| optr := fposn s5 |> <| oend := fposn s5 + frame_size |>)) ;;
+    ret frame_size.
+Definition wrap_posns (s : lst) : lst :=
+  let s' := if wposn s =? wsize s then s <| wposn := 0 |> else s in if fposn s' =? wsize s' then s' <| fposn := 0 |> else s'.
+Fixpoint frame_loop (fuel : nat) (end_frame : N) (out_bytes : N) : lm N :=
+  match fuel with O => fail 99 | S f =>
+    s <- get ;;
+    if end_frame <=? frame s then ret out_bytes else
+    frame_size <- frame_pre ;;
     s6 <- get ;;
     let i := N.min out_bytes frame_size in
     _ <- write (obytes s6 i) ;;
     _ <- modify (fun s => s <| optr := optr s + i |> <| offset := offset s + i |>
                             <| fposn := fposn s + frame_size |> <| frame := frame s + 1 |>) ;;
-    _ <- modify (fun s => let s' := if wposn s =? wsize s then s <| wposn := 0 |> else s in
-                          if fposn s' =? wsize s' then s' <| fposn := 0 |> else s') ;;
+    _ <- modify wrap_posns ;;
     frame_loop f end_frame (out_bytes - i) end.
 
 Definition decompress (out_bytes : N) : lm unit :=
